@@ -312,6 +312,16 @@ T6_TABLE = {
 }
 
 
+# the exception types each tabled handler may name (a broader handler also catches what a user function raises)
+T6_TYPES = {
+    ('BatchDataset', '__getitem__'): {'IndexError'},
+    ('CatchExceptionDataset', '__iter__'): {'self.exceptions'},
+    ('ProfilingDataset', '__iter__'): {'StopIteration', 'Exception'},
+    ('ProfilingDataset', '__getitem__'): {'Exception'},
+    ('ItemsDataset', '__iter__'): {'_ItemsNotDefined'},
+}
+
+
 def rule_t6(ctx):
     """exceptions raised by upstream examples propagate unchanged through every other stage: no try around an
     upstream lookup / iteration has a handler that can complete normally"""
@@ -336,6 +346,19 @@ def rule_t6(ctx):
                 if (cls.name, mname) in T6_TABLE:
                     rep.ob('T6', K.key(cls, mname, 'handler-around-upstream-lookup-tabled'), True, t,
                            T6_TABLE[(cls.name, mname)], nontrivial=False)
+                    named = set()
+                    for h in t.handlers:
+                        if h.type is None:
+                            named.add('<bare except>')
+                        elif isinstance(h.type, ast.Tuple):
+                            named.update(A.src(e) for e in h.type.elts)
+                        else:
+                            named.add(A.src(h.type))
+                    extra = sorted(named - T6_TYPES[(cls.name, mname)])
+                    rep.ob('T6', K.key(cls, mname, 'tabled-handler-names-only-its-own-types'), not extra, t,
+                           '' if not extra else 'the handler around `%s` also names %s: an exception of that type raised while an '
+                           'upstream example is evaluated (user map function, deeper stage) is taken for the stage\'s own signal '
+                           'and swallowed / converted instead of propagating unchanged' % (A.short(touches[0], 40), extra))
                     continue
                 rep.ob('T6', K.key(cls, mname, 'upstream-exceptions-propagate'), not swallowing, swallowing[0] if swallowing else t,
                        '' if not swallowing else 'a handler for %s around the upstream lookup `%s` completes normally: an '
